@@ -52,8 +52,10 @@ def matcher_cases(ctx: Any, index: int) -> List[Tuple[str, Dict[str, Any], List[
         return [("better-lot-arrives", families.better_lot_arrives(rng), [{1970: m} for m in METHODS])]
     if pick < 0.86:
         return [("many-tiny-lots", families.many_tiny_lots(rng), [{1970: m} for m in METHODS])]
-    if pick < 0.92:
+    if pick < 0.90:
         return [("same-instant-other-offset", families.same_instant_other_offset(rng), [{1970: m} for m in METHODS])]
+    if pick < 0.93:
+        return [("nearly-equal-prices", families.nearly_equal_prices(rng), [{1970: m} for m in METHODS])]
     hist, sched = families.year_boundary_switch(rng)
     return [("year-boundary-switch", hist, [sched])]
 
